@@ -151,6 +151,36 @@ CHECKS: dict[str, dict] = {
                         "actuator device types are those the library accepts as zone children (04: TRV, 13: BDR)",
                         "a lost reply is recovered at the next 24 h polling round: that is what 'a later polling round' means here"],
     },
+    "C17": {
+        "specs": [("sched", "codec", 1500, 60000)],
+        "budget": (120, 1500),
+        "rule": "one run = 1-3 zones (+DHW) with generated weekly schedules (1-6 switchpoints/day on the 5-minute grid, "
+                "setpoints on the 0.01 grid biased to values where x*100 is not exact, DHW on/off); monitored pure clauses: "
+                "full_sched_to_fragz/fragz_to_full_sched identity, fragment <= 41 bytes, W|0404 payload <= 48 bytes and "
+                "decodes to the same fragment; simulated clause: RP|0404 fragments of one or two versions of a zone's "
+                "schedule overheard in a seeded order with repeats -> zone.schedule is None or exactly one version; plus a "
+                "set_schedule -> fresh gateway -> get_schedule round trip against the scripted controller. distinct = "
+                "distinct (zones, fragment orders); non-trivial = every run",
+        "real": ["ramses_rf.system.schedule (Schedule, codecs)", "Command.set/get_schedule_fragment", "parser_0404", "Gateway + zones", "QoS send path"],
+        "stub": STUB_RF + ["simrf.peers.SimController (own zlib/struct codec written from the wire layout)"],
+        "assumptions": ["the encode/decode identity over all schedules is a pure clause: generated, not enumerated"],
+    },
+    "C18": {
+        "specs": [("sched", "xfer", 2500, 80000)],
+        "budget": (120, 1500),
+        "rule": "one run = 1-5 get_schedule(force_io, timeout)/set_schedule calls over 1-3 zones (+DHW) of one system "
+                "(different zones concurrently, one zone's calls in sequence) against the scripted controller, with per-"
+                "exchange reply loss/delay/duplication (0006 and every 0404 fragment), schedule changes on the controller "
+                "between exchanges, overheard current/old fragments, overall timeouts 0.3-400 s, caller cancellation and "
+                "stalls; oracle: each transfer ends within its timeout with a version the controller held during the "
+                "transfer (or an error), never a stitched one; afterwards zone_lock_idx is None and a fault-free forced "
+                "get for every zone returns the current schedule in seconds. non-trivial = a fault fired",
+        "real": ["Schedule.get_schedule/_get_schedule/set_schedule/_is_dated/_handle_msg", "ScheduleSync._obtain_lock/_release_lock/"
+                 "_schedule_version", "QoS send path + PortTransport", "zones, dispatcher"],
+        "stub": STUB_RF + ["simrf.peers.SimController"],
+        "assumptions": ["an unforced get_schedule may return the cached older version by design (no change counter is read)",
+                        "a zone without a schedule answers with the documented 7-byte RP|0404; an error is a legitimate ending"],
+    },
 }
 
 
@@ -214,11 +244,20 @@ MANIFEST_TEXT["C12"] = {
             "discovery pollers for up to 49 virtual hours; soundness/monotonicity sampled every 10 virtual minutes and "
             "bounded liveness after the faults stop.", "design_ref": "DESIGN.md 7/C12", "technique": _TECH,
     "note": "Few but deep runs (about 5-10 s each); the write gap knob is at the top of its legal range."}
+MANIFEST_TEXT["C17"] = {
+    "text": "The stateful clause (reassembly from reply packets in any order, with repeats and mixed versions) and the wire "
+            "round trip through a scripted controller are simulated; the encode/decode identity is monitored on generated "
+            "schedules.", "design_ref": "DESIGN.md 7/C17", "technique": _TECH,
+    "note": "The controller's codec is an independent implementation of the documented zlib/struct layout."}
+MANIFEST_TEXT["C18"] = {
+    "text": "Seeded search over fault patterns on every exchange of concurrent schedule transfers; history oracle on results, "
+            "versions and the per-system lock, plus a fault-free follow-up per zone.", "design_ref": "DESIGN.md 7/C18",
+    "technique": _TECH, "note": "Versions are distinguishable because every switchpoint carries a version marker."}
 NOT_APPLICABLE = {
     "C03": "pure function of constructor arguments (decode(build(args)) = args): no schedule, clock, fault, history or second "
            "party to simulate; exhaustive/argument-space enumeration is outside this technique (DESIGN.md 8)",
     "C04": "pure scalar codec inverses over finite enumerable domains: no nondeterminism for a simulator to control "
            "(DESIGN.md 8)",
 }
-for _p in ( "C12", "C13", "C14", "C15", "C16", "C17", "C18", "C19", "C20"):
+for _p in ("C13", "C14", "C15", "C16", "C19", "C20"):
     NOT_APPLICABLE.setdefault(_p, "applicable, but its engine is not built yet in this round (see DESIGN.md 12 build order)")
